@@ -73,7 +73,7 @@ for _p, _txt in (('C02', 'every dial of every generated spec must complete the h
                  ('C11', 'cipher suites, extension order and bodies and the transport parameter list on the wire equal the spec (or a permutation when randomised); TransportParameterIDs() and the reference fingerprint agree with the wire')):
     PROPS[_p] = {
         'level': 'exploration', 'budget': {'quick': 75, 'thorough': 1500},
-        'parts': [{'sim': 'dial', 'env': {'VERIF_ORACLES': _p}}] + ([{'sim': 'flightlab'}] if _p == 'C09' else []) + ([{'sim': 'tpshuffle', 'share': 0.4}] if _p == 'C11' else []),
+        'parts': [{'sim': 'dial', 'env': {'VERIF_ORACLES': _p}}] + ([{'sim': 'flightlab'}] if _p == 'C09' else []) + ([{'sim': 'tpshuffle', 'share': 0.4}] if _p == 'C11' else []) + ([{'sim': 'nilspec', 'share': 0.3}] if _p == 'C02' else []),
         'rule': DIAL_RULE, 'real_vs_stub': 'real: UTransport + spec machinery + uTLS + in-tree server; stub: network, clock, randomness (seeded), certificates',
         'assumptions': ['expected ClientHello extension bodies are read from the spec objects uTLS serialised for that dial'],
         'level_text': 'seeded search over spec families, dial histories and first-flight fault schedules on whole connections: ' + _txt,
@@ -162,6 +162,8 @@ PROPS['C14'] = {
 }
 
 PROPS['C11']['rule'] += '; W:tpshuffle: 1200 (thorough: 6000) dial captures per run of one spec value with a 4-5 element parameter list: every permutation occurs, position frequencies within 8 standard deviations, consecutive repeats at chance level'
+PROPS['C02']['rule'] += ('; W:nilspec (differential): one transfer scenario executed through a plain Transport and through UTransport{QUICSpec: nil} in two bubbles with identical clock origin and identically '
+                         'reseeded seams: wire history (instants, sizes, packet types and numbers, frames, fates) and application outcome must be identical')
 PROPS['C09']['rule'] += ('; K:flightlab: real initialCryptoStream + packetPacker/uPacketPacker + ack handler with a model TLS stack (ClientHello 0 bytes - 4 datagrams, SNI/ECH at varying positions, '
                          'HelloRetryRequest), every builder kind with seeded parameterisations incl. negative ranges and invalid configurations, a lossy model peer, PTO and retransmission re-framing; '
                          'every datagram parsed by the wire parser and by an independent byte reader')
@@ -202,6 +204,23 @@ PROPS['C12'] = {
                     'a peer value of max_idle_timeout=0 is treated by the in-tree server as 5 s (probe idle-explicit-zero-server-uses-5s); the oracle uses the value the server put on the wire'],
     'level_text': 'bounded sweep of built-in fingerprints x limits x Config relations plus seeded search over generated parameter lists, Configs and fault schedules on whole connections: a conformant peer can use every advertised limit to the full, '
                   'the client raises no local transport error, does not idle out early, keeps granting credit, and its own record of its parameters (qlog, ConnectionState) equals the wire',
+    'level_note': W_NOTE, 'technique': W_TECH,
+}
+
+PROPS['C18'] = {
+    'level': 'exploration', 'budget': {'quick': 75, 'thorough': 1500},
+    'parts': [{'sim': 'h3', 'env': {'VERIF_ORACLES': 'C18'}}],
+    'rule': 'seeded scenarios in three classes: (1) real http3.Transport against real http3.Server over the simulated network: 1-30 exchanges per connection at concurrency 1..N, generated methods, paths, header multisets (repeated fields, cookies, '
+            'non-canonical keys, values up to 100 KB), bodies 0..1 MB in arbitrary chunks with gaps, Content-Length right / too long / too short / unknown in both directions, declared and undeclared trailers, 1xx, HEAD/204/304, gzip, '
+            'handler panics, partial reads, cancellations, abandoned bodies, connection kills, optional settings (loggers, datagrams, header limits) left unset or set, plain and spec-driven QUIC clients; '
+            '(2) a scripted raw client on real QUIC streams against http3.Server and (3) a scripted raw server against http3.Transport: hand-made frame sequences with unknown / reserved / forbidden frame and stream types, '
+            'arbitrary varint widths and write boundaries, truncation, resets; each class fault-free and under loss, duplication, reordering, corruption; non-trivial = a network fault or an adversarial step fired; distinct = distinct abstract wire traces',
+    'real_vs_stub': 'real: http3.Server, http3.Transport, qpack, QUIC client and server transports; stub: network, clock, handlers and request bodies (generated), raw peers (scripted, with the qpack encoder of the module cache)',
+    'assumptions': ['RFC 9114 deviations the property does not name (a frame cut off by the end of the stream, reserved HTTP/2 setting identifiers, a closed critical stream), the goroutine rawConn.closeQlogger leaves behind when qlog is on, '
+                    'and a request failing because the dial it shares was cancelled by another request are counted as probes, not judged',
+                    'in faulty runs an exchange may fail; wrong data is never accepted'],
+    'level_text': 'seeded search over generated HTTP/3 exchanges and scripted raw peers on whole connections against a reference model of what handler and client must observe (request line, header multisets, every body byte by position, '
+                  'trailers, 1xx sequence, Content-Length semantics) and of the reaction RFC 9114 requires to each forbidden frame or stream type; crashes of the process are caught by the driver',
     'level_note': W_NOTE, 'technique': W_TECH,
 }
 
